@@ -206,9 +206,11 @@ def BBox.insideImpl (b : BBox R) (p : P2 R) (tol : R) : Bool :=
   let oky := !(decide (p.y < b.lo.y - tol * fabs (b.hi.y - b.lo.y)) || decide (p.y > b.hi.y + tol * fabs (b.hi.y - b.lo.y)))
   okx && oky
 
-/-- `BoundingBox<2>::point_inside(point)` with the default tolerance `epsilon` -/
+/-- `BoundingBox<2>::point_inside(point)` with the default tolerance `epsilon`; spherical: the point, the point + 2π and the
+point − 2π are tried (upstream 'fix: bounding box tried only one longitude alias') -/
 def BBox.inside (b : BBox R) (spherical : Bool) (p : P2 R) : Bool :=
-  if spherical then b.insideImpl p Scalar.eps || b.insideImpl (otherPoint p) Scalar.eps
+  if spherical then b.insideImpl p Scalar.eps || b.insideImpl ⟨p.x + (2.0 : R) * Scalar.pi, p.y⟩ Scalar.eps
+    || b.insideImpl ⟨p.x - (2.0 : R) * Scalar.pi, p.y⟩ Scalar.eps
   else b.insideImpl p Scalar.eps
 
 structure LineFeature (R : Type) where
